@@ -4,6 +4,7 @@
 Nothing here decides a property; it carries what the per-property modules (cNN.py) report.
 """
 import fcntl
+import glob
 import hashlib
 import json
 import os
@@ -104,6 +105,8 @@ def go_build(pkg, out, tags="verif", race=False, cwd=HARNESS):
 
 
 class BuildResult:
+    hooks_ok = True
+
     def __init__(self):
         self.broken = []      # list of dicts {kind, name, detail}
         self.theorems = []    # audit output for the property module
@@ -256,9 +259,14 @@ def audit(module):
 
 def expected_obligations(prop):
     try:
-        return json.load(open(OBLIGATIONS)).get(prop, [])
+        ob = json.load(open(OBLIGATIONS))
     except OSError:
         return []
+    out = []
+    for k, v in ob.items():
+        if k == prop or (k.startswith(prop) and len(k) > len(prop) and not k[len(prop)].isdigit()):
+            out += v
+    return out
 
 
 def ensure_built(prop, gens, need_driver=True, need_harness=True, extra_go=()):
@@ -291,6 +299,9 @@ def ensure_built(prop, gens, need_driver=True, need_harness=True, extra_go=()):
                                    "detail": e["msg"]})
         else:
             res.theorems = audit(module)
+            # companion modules Props/<prop><Suffix>.lean (imported by the main one) belong to the same property
+            for extra in sorted(glob.glob(os.path.join(LEAN, "GooseVerif", "Props", prop + "?*.lean"))):
+                res.theorems += audit("GooseVerif.Props." + os.path.basename(extra)[:-5])
             names = {t["name"].split(".")[-1] for t in res.theorems}
             for want in expected_obligations(short):
                 if want not in names:
@@ -316,8 +327,20 @@ def ensure_built(prop, gens, need_driver=True, need_harness=True, extra_go=()):
             if not res.harness_ok:
                 raise Infra("cannot build the correspondence harness against /repo (does /repo compile?):\n" + p.stderr[-3000:])
         for pkg, out, kw in extra_go:
+            kw = dict(kw)
+            optional = kw.pop("optional", False)
             p = go_build(pkg, os.path.join(BIN, out), **kw)
             if p.returncode != 0:
+                if optional:
+                    # a hook reader that no longer compiles against the working tree: the tie it provides is broken
+                    res.hooks_ok = False
+                    try:
+                        os.remove(os.path.join(BIN, out))
+                    except FileNotFoundError:
+                        pass
+                    res.broken.append({"kind": "correspondence", "name": "hook reader %s does not build against the working tree" % out,
+                                       "detail": p.stderr[-800:]})
+                    continue
                 raise Infra("cannot build %s:\n%s" % (pkg, p.stderr[-3000:]))
     return res
 
